@@ -304,6 +304,10 @@ func exhaustiveC07(thorough bool, emit func(C07Case) bool) {
 	}
 }
 
-func TestC07(t *testing.T) {
-	Run(t, Prop[C07Case]{ID: "C07", Gen: genC07, Exhaustive: exhaustiveC07, Check: checkC07, TerminationIsProperty: true})
+func propC07() Prop[C07Case] {
+	return Prop[C07Case]{ID: "C07", Gen: genC07, Exhaustive: exhaustiveC07, Check: checkC07, TerminationIsProperty: true}
 }
+
+func TestC07(t *testing.T) { Run(t, propC07()) }
+
+func FuzzGenC07(f *testing.F) { RunFuzz(f, propC07()) }
